@@ -190,6 +190,12 @@ fn ge_machine(toks: &[&str]) -> R {
             "dblp" => obs.push(hex(&top!().double_partial().to_bytes())),
             "pdbl" => obs.push(hex(&top!().clone().to_partial().double().to_bytes())),
             "pdblf" => obs.push(hex(&top!().clone().to_partial().double_full().to_bytes())),
+            // the completed-point (P1P1) results of both doubling entry points, converted both ways
+            "dp1f" => obs.push(hex(&top!().double_p1p1().to_full().to_bytes())),
+            "dp1p" => obs.push(hex(&top!().double_p1p1().to_partial().to_bytes())),
+            "pdp1f" => obs.push(hex(&top!().clone().to_partial().double_p1p1().to_full().to_bytes())),
+            "pdp1p" => obs.push(hex(&top!().clone().to_partial().double_p1p1().to_partial().to_bytes())),
+            "pzero" => obs.push(hex(&GePartial::ZERO.to_bytes())),
             _ => {
                 if let Some(h) = t.strip_prefix("dec:") {
                     let b = arg_bytes(&format!("h:{}", h))?;
